@@ -5,6 +5,7 @@
 // offending token ends; an accepted parse must deliver no diagnostic.
 #include "common.h"
 #include "inctree.h"
+#include "events.h"
 
 namespace sim {
 namespace {
@@ -19,7 +20,22 @@ json generate(uint64_t seed, uint64_t idx, int tier)
 	sg.include = true;
 	sg.keystrval = r.chance(1, 2);
 	sg.max_opts = 6;
+	bool callbacks = r.chance(1, 3);
+	sg.pcb = callbacks;
+	sg.vcb = callbacks;
 	json schema = gen_schema(r, sg);
+	if (callbacks) {
+		// no callback invocations while defaults are applied: every invocation belongs to a token of the text
+		std::function<void(json &)> strip = [&](json &opts) {
+			for (auto &o : opts) {
+				if (o.value("pcb", 0) || o.value("vcb", 0) || o["t"] == "ptr")
+					o.erase("dp");
+				if (o.contains("sub"))
+					strip(o["sub"]);
+			}
+		};
+		strip(schema["opts"]);
+	}
 	plan["schemas"] = json::array({schema});
 	int flags = (r.chance(1, 3) ? F_COMMENTS : 0) | (r.chance(1, 8) ? F_NOCASE : 0);
 	TextGen tg;
@@ -31,7 +47,7 @@ json generate(uint64_t seed, uint64_t idx, int tier)
 	std::vector<Chunk> flat = gen_text(r, schema["opts"], tg);
 	Tree t;
 	t.mode = 0;
-	std::vector<Chunk> top = r.chance(1, 2) ? split(r, t, flat, 0, (int)r.range(1, 3)) : flat;
+	std::vector<Chunk> top = (!callbacks && r.chance(1, 2)) ? split(r, t, flat, 0, (int)r.range(1, 3)) : flat;
 	json steps = json::array();
 	json init = step(0, "init", 0);
 	init["flags"] = flags;
@@ -50,7 +66,7 @@ json generate(uint64_t seed, uint64_t idx, int tier)
 	plan["world"] = world_of(t);
 	plan["knobs"] = {{"tty", r.chance(1, 8)}};
 	plan["steps"] = steps;
-	plan["params"] = {{"enumerate", "token"}, {"tier", tier}};
+	plan["params"] = {{"enumerate", "token"}, {"tier", tier}, {"callbacks", callbacks}};
 	plan["frozen"] = json::array({"schemas"});
 	return plan;
 }
@@ -182,6 +198,8 @@ JudgeOut judge(const json &plan)
 		clean[json::json_pointer(s.ptr)].erase("mut");
 		clean[json::json_pointer(s.ptr)].erase("cutat");
 	}
+	clean["steps"][main_step].erase("fcb");
+	clean["steps"][main_step].erase("cberr");
 	RunResult base = execute(clean);
 	add_exec_counters(out, base);
 	const OpResult *bo = nullptr;
@@ -214,7 +232,63 @@ JudgeOut judge(const json &plan)
 		return line_at(chunks, ci, chunks[ci]["toks"][ti][0].get<size_t>() + (size_t)f[2].get<long>());
 	};
 
+	// ---- refusing callbacks: the diagnostic a callback raises names the line of the token whose processing invoked it
+	auto callback_refusals = [&](const json &p0, long only_k) {
+		const json &src = p0["steps"][main_step]["src"];
+		if (!src.contains("chunks") || src.value("kind", "buf") == "file")
+			return;
+		const json &chunks = src["chunks"];
+		std::vector<Ev> exp = expected_events(p0["schemas"][0]["opts"], chunks);
+		std::vector<Obs> obs = observed_events(*bo);
+		std::vector<size_t> assign;
+		if (!match_trace(exp, obs, &assign, true).empty())
+			return; // whether the trace is right is C14's business
+		std::string name = src.value("kind", "buf") == "buf" ? "[buf]" : "FILE";
+		for (uint64_t k = 1; k <= obs.size(); k++) {
+			if (only_k > 0 && (long)k != only_k)
+				continue;
+			json p2 = p0;
+			p2["steps"][main_step]["fcb"] = k;
+			p2["steps"][main_step]["cberr"] = 1;
+			if (only_k <= 0)
+				note_subcase(json::array({{{"op", "add"}, {"path", "/steps/" + std::to_string(main_step) + "/fcb"}, {"value", k}}, {{"op", "add"}, {"path", "/steps/" + std::to_string(main_step) + "/cberr"}, {"value", 1}},
+							  {{"op", "remove"}, {"path", "/params/enumerate"}}}));
+			const Ev &e = exp[assign[k - 1]];
+			int want = line_at(chunks, e.chunk, chunks[e.chunk]["toks"][e.tok][1].get<size_t>());
+			RunResult r2 = execute(p2);
+			add_exec_counters(out, r2);
+			out.k.add("fault.callback_refuses.fired");
+			out.distinct.push_back(mix(mix(plan_fingerprint(plan), 777), k));
+			const OpResult *o = nullptr;
+			for (auto &x : r2.ops)
+				if (x.index == (int)main_step)
+					o = &x;
+			if (!o || r2.died)
+				continue;
+			std::string what = "invocation #" + std::to_string(k) + " (" + e.kind + " " + e.opt + ") refused";
+			if (o->ret != 1)
+				out.viol.push_back({"wrong-return-code:callback_refuses:" + e.kind, "a parse refused by a callback must return the parse-error code, got " + std::to_string(o->ret) + " [" + what + "]", p2});
+			else if (o->diags.empty())
+				out.viol.push_back({"unreported:callback_refuses:" + e.kind, "the refusing callback called cfg_error() but no diagnostic arrived [" + what + "]", p2});
+			else if (o->diags[0].file != name || o->diags[0].line != want) {
+				out.k.add("probe.callback_refusal_position_checked");
+				out.viol.push_back({std::string(o->diags[0].file != name ? "wrong-file" : "wrong-line") + ":callback_refuses:" + e.kind,
+						    "the diagnostic raised by the refusing callback names " + o->diags[0].file + ":" + std::to_string(o->diags[0].line) + " (context '" + o->diags[0].sec + "'), expected " + name + ":" + std::to_string(want) +
+							    ", the line on which the token that triggered the callback ends [" + what + "]",
+						    p2});
+			} else
+				out.k.add("probe.callback_refusal_position_checked");
+			if (out.viol.size() > 8)
+				return;
+		}
+	};
+
 	if (!enumerate) {
+		long k = steps[main_step].value("fcb", 0L);
+		if (k > 0) {
+			callback_refusals(clean, k);
+			return out;
+		}
 		for (auto &s : srcs) {
 			const json &so = basep[json::json_pointer(s.ptr)];
 			for (const char *key : {"mut", "cutat"})
@@ -228,6 +302,16 @@ JudgeOut judge(const json &plan)
 	}
 	uint64_t fp = plan_fingerprint(plan);
 	std::set<std::string> seen;
+	if (plan["params"].value("callbacks", false)) {
+		size_t before = out.viol.size();
+		callback_refusals(clean, -1);
+		for (size_t i = before; i < out.viol.size();) {
+			if (!seen.insert(out.viol[i].cls).second)
+				out.viol.erase(out.viol.begin() + i);
+			else
+				i++;
+		}
+	}
 	for (auto &s : srcs) {
 		if (!s.top && !reachable(basep, s.name, top_chunks))
 			continue;
@@ -248,6 +332,13 @@ JudgeOut judge(const json &plan)
 					faults.push_back({"wrong_punctuation", {{"key", "mut"}, {"value", json::array({ci, ti, "="})}}});
 				if (s.top && role != "c")
 					faults.push_back({"premature_end", {{"key", "cutat"}, {"value", json::array({ci, ti, 0})}}});
+				// the input ends inside the token: inside a quoted (possibly multi-line) string, a comment, a name
+				long tlen = (long)(toks[ti][1].get<size_t>() - toks[ti][0].get<size_t>());
+				if (s.top && tlen >= 2) {
+					faults.push_back({"premature_end_inside_token", {{"key", "cutat"}, {"value", json::array({ci, ti, 1})}}});
+					if (tlen >= 4)
+						faults.push_back({"premature_end_inside_token", {{"key", "cutat"}, {"value", json::array({ci, ti, tlen - 1})}}});
+				}
 				for (auto &f : faults) {
 					std::string key = f.second["key"].get<std::string>();
 					json p2 = clean;
@@ -278,14 +369,16 @@ Property P = [] {
 	p.level = "fault_enumeration";
 	p.rule = "seeded schema (no deprecated options; nested / multi / titled / free-form sections; include) and a rendered valid text with any mix of comment styles, blank lines and "
 		 "multi-line strings, delivered as buffer / stream / file and in half of the runs spread over an include tree; for EVERY token of every file one run per applicable fault: "
-		 "undeclared name (not in free-form sections), unconvertible value (int/float/bool), wrong punctuation, premature end right before the token (top-level source); "
+		 "undeclared name (not in free-form sections), unconvertible value (int/float/bool), wrong punctuation, premature end right before the token and inside it - one byte after "
+		 "its start and one byte before its end, i.e. inside strings, comments and names - (top-level source); in a third of the plans the schema carries value / validation "
+		 "callbacks and for EVERY invocation k the k-th one refuses and reports through cfg_error(): the diagnostic must name the line on which the triggering token ends; "
 		 "distinct = distinct (text, file, token, fault) tuples";
 	p.assumptions = {"M-line: the generator knows file and byte extent of every token it rendered; the expected line is 1 + the number of newlines before the token in its own file (each newline counted once)",
 			 "because the text before the injection point is valid and the parser is one-pass, the first diagnostic must be about the injected token",
 			 "the return code is observed, not predicted: a damaged text that is still accepted must deliver no diagnostic (whether it should be accepted is C01)",
 			 "a plan whose undamaged text is not accepted is discarded and counted; premature ends inside included files are not injected (the scanner continues in the includer by design)",
 			 "the schedule dimension is empty for this property: the fault is a corruption / cut at a known instant of a known file in the simulated include tree"};
-	p.probes = {"rejected_with_position_checked", "error_inside_included_file"};
+	p.probes = {"rejected_with_position_checked", "error_inside_included_file", "callback_refusal_position_checked"};
 	p.components = {{"confuse.c parser and cfg_error", "real"}, {"lexer line bookkeeping", "real"}, {"error callback", "stub: records file and line of the context handed to it"}, {"file namespace", "stub"}};
 	p.quick_seconds = 20;
 	p.thorough_seconds = 400;
